@@ -291,11 +291,11 @@ theorem wp_downstream1 {e eb : Ext} {bu bd : Buf} {nrows ncols : Int} {code fdir
     · refine ⟨by simp [InGrid]; omega, ?_⟩
       intro d hd; cases hd; exact downCell_spec _ _ _ _ _
 
-theorem wp_upstream1 {e : Ext} {nrows ncols : Int} {code fdir : Nat → Int} {row idx : Int}
+theorem wp_upstream1 {e eu : Ext} {nrows ncols : Int} {code fdir : Nat → Int} {row idx : Int}
     (hr : 0 ≤ nrows) (hc : 0 ≤ ncols) (hN : nrows * ncols ≤ 9223372036854775807)
     (hfd : nrows * ncols ≤ e .flowdir) (hcode : 9 ≤ e .flowdircode)
-    (hrow : 0 ≤ row) (hup : 9 * row + 9 ≤ e .idxup) :
-    wp (upstream1 e nrows ncols code fdir row idx) (fun _ => True) := by
+    (hrow : 0 ≤ row) (hup : 9 * row + 9 ≤ eu .idxup) :
+    wp (upstream1 e eu nrows ncols code fdir row idx) (fun _ => True) := by
   unfold upstream1
   have h0 : 0 ≤ nrows * ncols := Int.mul_nonneg hr hc
   refine wp_bind (wp_i64 ⟨by omega, by omega⟩ ?_)
@@ -606,4 +606,104 @@ theorem wp_bndWalk {e : Ext} {nrows ncols dmax2 sx sy : Int} {n : Nat} {j : Int}
            · exact hbuf b h
            · left; omega)
         | skip
+theorem upList_inGrid (nrows ncols : Int) (code fdir : Nat → Int) (c : Int) :
+    ∀ x ∈ upList nrows ncols code fdir c, InGrid nrows ncols x := by
+  intro x hx
+  unfold upList at hx
+  obtain ⟨j, _, hj⟩ := List.mem_filterMap.1 hx
+  simp only [] at hj
+  split at hj
+  · cases hj
+  · split at hj
+    · cases hj
+    · split at hj
+      · cases hj
+        rename_i hne _ _
+        exact (neighbour_inGrid nrows ncols c j).resolve_left hne
+      · cases hj
+
+theorem wp_isInlet {e : Ext} {ninlets : Int} {inlets : Nat → Int} {idx : Int} (h : ninlets ≤ e .idxinlets) :
+    wp (isInlet e ninlets inlets idx) (fun _ => True) := by
+  unfold isInlet
+  wp_run
+
+/-- invariant inside a layer: `i0` = value of `i` when the layer started -/
+def DAInv (nrows ncols nval i0 : Int) (s : DA) : Prop :=
+  0 ≤ s.i ∧ s.i ≤ nval - 1 ∧ (s.buf2.length : Int) ≤ nval - 1 ∧ (∀ b ∈ s.buf2, InGrid nrows ncols b) ∧
+  s.i = i0 + s.buf2.length
+
+theorem wp_daStore {e : Ext} {nrows ncols nval i0 idx : Int} {s : DA}
+    (ha : nval ≤ e .idxcellsArea) (hb : nval ≤ e .buffer2) (hg : InGrid nrows ncols idx)
+    (hI : DAInv nrows ncols nval i0 s) :
+    wp (daStore e nval idx s) (fun x => ∀ s', x = .inl s' → DAInv nrows ncols nval i0 s') := by
+  obtain ⟨h0, h1, h2, h3, h4⟩ := hI
+  unfold daStore
+  wp_lin
+  intro s' hs; cases hs
+  refine ⟨by simp; omega, by simp; omega, by simp; omega, ?_, by simp; omega⟩
+  intro b hb'
+  rcases List.mem_append.1 hb' with h | h
+  · exact h3 b h
+  · simp at h; subst h; exact hg
+
+theorem wp_daCell {e : Ext} {nrows ncols nval ninlets i0 : Int} {code fdir inlets : Nat → Int}
+    {idxcell : Int} {s : DA}
+    (hr : 0 ≤ nrows) (hc : 0 ≤ ncols) (hN : nrows * ncols ≤ 9223372036854775807)
+    (hfd : nrows * ncols ≤ e .flowdir) (hcode : 9 ≤ e .flowdircode) (hin : ninlets ≤ e .idxinlets)
+    (ha : nval ≤ e .idxcellsArea) (hb : nval ≤ e .buffer2)
+    (hI : DAInv nrows ncols nval i0 s) :
+    wp (daCell e nrows ncols nval ninlets code fdir inlets idxcell s)
+      (fun x => ∀ s', x = .inl s' → DAInv nrows ncols nval i0 s') := by
+  unfold daCell
+  refine wp_bind (wp_mono (wp_upstream1 hr hc hN hfd hcode (le_refl 0) (by simp)) (fun _ _ => ?_))
+  refine wp_bind (wp_forEach (fun k _ _ => wp_acc ⟨by omega, by simp; omega⟩ trivial) ?_)
+  simp only []
+  refine wp_forLoop (fun _ s => DAInv nrows ncols nval i0 s) _ _ _ hI ?_ (fun x hx => hx)
+  intro k s' hk0 hk1 hs'
+  have hlt : k.toNat < (upList nrows ncols code fdir idxcell).length := by omega
+  have hmem : (upList nrows ncols code fdir idxcell).getD k.toNat (-1) ∈ upList nrows ncols code fdir idxcell := by
+    simp only [List.getD_eq_getElem?_getD, List.getElem?_eq_getElem hlt, Option.getD_some]
+    exact List.getElem_mem _
+  have hg := upList_inGrid nrows ncols code fdir idxcell _ hmem
+  refine wp_bind (wp_mono (wp_isInlet hin) (fun isin _ => ?_))
+  refine wp_bite (fun _ => wp_pure (by intro s'' h; cases h; exact hs')) (fun _ => ?_)
+  exact wp_mono (wp_daStore ha hb hg hs') (fun x hx => hx)
+/-- invariant at the start of layer `t` -/
+def LInv (nrows ncols nval : Int) (t : Int) (s : DA) : Prop :=
+  t ≤ s.i ∧ s.i ≤ nval - 1 ∧ 1 ≤ s.buf2.length ∧ (s.buf2.length : Int) ≤ nval ∧
+  (∀ b ∈ s.buf2, InGrid nrows ncols b)
+
+theorem wp_daLayer {e : Ext} {nrows ncols nval ninlets idxoutlet : Int} {code fdir inlets : Nat → Int}
+    {t : Int} {s : DA}
+    (hr : 0 ≤ nrows) (hc : 0 ≤ ncols) (hN : nrows * ncols ≤ 9223372036854775807)
+    (hfd : nrows * ncols ≤ e .flowdir) (hcode : 9 ≤ e .flowdircode) (hin : ninlets ≤ e .idxinlets)
+    (ha : nval ≤ e .idxcellsArea) (hb1 : nval ≤ e .buffer1) (hb2 : nval ≤ e .buffer2)
+    (ht : 0 ≤ t) (hI : LInv nrows ncols nval t s) :
+    wp (daLayer e nrows ncols nval ninlets idxoutlet code fdir inlets t s)
+      (fun x => ∀ s', x = .inl s' → LInv nrows ncols nval (t + 1) s') := by
+  obtain ⟨h0, h1, h2, h3, h4⟩ := hI
+  unfold daLayer
+  refine wp_bind (wp_forEach (fun l _ _ => ?_) ?_)
+  · wp_lin
+  refine wp_bind (wp_forLoop (fun _ s' => DAInv nrows ncols nval s.i s') _ _ _ ?_ ?_ ?_)
+  · exact ⟨by simp; omega, by simp; omega, by simp; omega, by simp, by simp⟩
+  · intro l s' hl0 hl1 hs'
+    refine wp_bind (wp_acc ⟨hl0, by omega⟩ ?_)
+    exact wp_mono (wp_daCell hr hc hN hfd hcode hin ha hb2 hs') (fun x hx => hx)
+  · intro r hr'
+    cases r with
+    | inr c => exact wp_pure (by intro s' h; cases h)
+    | inl s' =>
+      obtain ⟨g0, g1, g2, g3, g4⟩ := hr' s' rfl
+      simp only []
+      refine wp_ite (fun _ => wp_pure (by intro s'' h; cases h)) (fun hne => ?_)
+      have hpos : 1 ≤ s'.buf2.length := by omega
+      refine wp_ite (fun ht0 => ?_) (fun _ => wp_pure ?_)
+      · refine wp_ite (fun _ => wp_pure (by intro s'' h; cases h)) (fun hni => ?_)
+        refine wp_bind (wp_acc ⟨g0, by omega⟩ (wp_pure ?_))
+        intro s'' h; cases h
+        exact ⟨by simp; omega, by simp; omega, hpos, by simp; omega, g3⟩
+      · intro s'' h; cases h
+        exact ⟨by omega, g1, hpos, by omega, g3⟩
+
 end HydroVerif.C05
